@@ -303,9 +303,9 @@ var Engine = &core.Engine{
 	},
 	Cases: func(tier string) int {
 		if tier == "thorough" {
-			return 80 * 200
+			return 80 * 600
 		}
-		return 80 * 8
+		return 80 * 60
 	},
 	Batch:         func(string) int { return 40 },
 	Run:           run,
